@@ -338,3 +338,16 @@ for _p, _what in (("C19", "mse, rsquare, rsquare_parts, nrmse_parts for all four
                   ("C15", "chk_pair = true yields over R: both trajectories close to the observed rows, 0 <= sigma, the Frobenius certificate frob2 W <= sigma^2, 0 <= lr <= 1, the squared contraction "
                           "inequality at every step and the box (C15_chk_pair_is_about_R_model, C15_contractingR_geometric; exact activations only)")):
     _app(_p, "text", " The R-vs-Q instance gap is closed by proof for this property (coq/base/NumHom.v, coq/proofs/QR_bridge_%s.v): %s." % (_p, _what))
+_app("C06", "text", " get_offline_subgraphs, _get_required_nodes and _get_links are ALSO translated from the current text of utils/graphflow.py on every run (tools/vlib/py2coq_staging.py -> "
+     "coq/gen/Gen_staging.v over base/PyColl2.v) and proved equal to the model of the staging for every graph - stage node and edge lists exactly, the relations up to the iteration order of one "
+     "Python set - with termination and each-offline-node-once transferred to the generated code (C06_generated_*, closed under the global context); the generated staging is executed "
+     "against the real function on the scenario graphs.")
+_app("C06", "note", " Tie (T) hypotheses: name-sorted edge list, no node both offline and online (the open hang finding), NoDup nodes; set iteration orders are permutation-valued parameters.")
+_app("C06", "technique", " + the staging code of graphflow.py translated on every run and proved equal to the model (translator tie)")
+_app("C12", "text", " check_vector, check_one_sequence and check_n_sequences are ALSO translated from the current source text on every run (tools/vlib/py2coq_val.py -> coq/gen/Gen_validation.v "
+     "over base/ValPrelude.v) and proved equal to the model for ALL data descriptors, nested lists of any depth, every expected dimension and all flags, with no hypothesis; a rejection by "
+     "the translated check is a rejection in the checking phase of the op skeleton, so C12_reject_before_change applies to the translated code (C12_generated_*, closed under the global context). "
+     "_check_node_io and check_xy stay tied by the correspondence only.")
+_app("C12", "note", "; tie (T): py2coq_val.py and base/ValPrelude.v as the meaning of the Python / numpy vocabulary on descriptors (DNum = int/float, DOther = str/dict, tuples = lists); "
+     "exception messages and `caller` are not translated")
+_app("C12", "technique", " + validation code translated on every run and proved equal to the model (translator tie)")
